@@ -22,6 +22,7 @@ pub fn scenario_regime(tier: &str, poor: bool) -> (Life, Bounds) {
         big: false,
         tick_faults: false,
         bystander: false,
+        extensions: true,
     };
     let b = if th {
         Bounds { max_depth: 400, max_faults: 1, wall_cap_s: 700.0, ..Default::default() }
@@ -51,6 +52,7 @@ pub fn scenario_big(tier: &str) -> (Life, Bounds) {
         big: true,
         tick_faults: false,
         bystander: false,
+        extensions: false,
     };
     let b = Bounds { max_depth: 400, max_faults: 1, wall_cap_s: if th { 400.0 } else { 25.0 }, ..Default::default() };
     (Life { cfg }, b)
